@@ -383,9 +383,10 @@ def run_case(case, scratch):
     if gc is not None:
         if gc.get('foreign_pid_use'):
             u = gc['foreign_pid_use'][0]
-            viol('grandchild-used-child-connection',
-                 'the grandchild issued %s %r on connection #%d, which the child (its parent) opened'
-                 % (u['kind'], u.get('sql'), u['conn']))
+            viol('grandchild-used-child-connection' if n_child else 'grandchild-used-first-process-connection',
+                 'the grandchild issued %s %r on connection #%d, which %s opened'
+                 % (u['kind'], u.get('sql'), u['conn'], 'the child (its parent)' if n_child else
+                    'the first process opened (the child in between never connected)'))
         if 'error' in gc and 'database is locked' not in gc['error']:
             viol('grandchild-session-failed', 'grandchild: %s' % gc['error'])
         if 'wrote' in gc:
